@@ -359,6 +359,7 @@ def parseWork (t : String) : Option Work :=
   | ["ret", r, e] => do pure (.ret (← r.toNat?) (← e.toNat?))
   | ["panic", v] => do pure (.panic (← v.toNat?))
   | ["never"] => some .never
+  | ["goexit"] => some .never     -- runtime.Goexit in the work: its goroutine ends without result or panic; the wrapper never hears from it
   | _ => none
 
 def showKind : Kind → String
@@ -887,6 +888,14 @@ def runEngLine (r : Report) (sec : Nat) (l : Line) (es : EngSec) : Report :=
 def runSection (r : Report) (s : Section) : Report :=
   s.lines.foldl (fun r l =>
     let r := { r with ops := r.ops + 1 }
+    -- outcome kinds of the user-supplied work (every entry point that takes a work token)
+    let r := l.op.foldl (fun r t =>
+      if t = "goexit" then r.addCover s!"work-Goexit-{l.op.headD ""}"
+      else if t.startsWith "ret:" && t.endsWith ":999" then r.addCover s!"work-typed-nil-error-{l.op.headD ""}"
+      else if t.startsWith "ret:" && t.endsWith ":0" then r.addCover s!"work-nil-error-{l.op.headD ""}"
+      else if t.startsWith "panic:" && t.length = 9 then r.addCover s!"work-panic-with-error-value-{l.op.headD ""}"
+      else if t.startsWith "panic:" then r.addCover s!"work-panic-with-non-error-value-{l.op.headD ""}"
+      else r) r
     match l.op.head? with
     | some "rest" => runRestLine r s.idx l true
     | some "race" => runRestLine r s.idx l false
